@@ -10,12 +10,13 @@ EXPLANATION = ('Only the first sentence of C19 (wrap count / in-track position o
                'The second sentence (every produced plot is a well-formed SVG with all points inside the view box, no point '
                'for absent values, LIS and LAS both plot) runs through Plot.py/Track.py/Coord.py and numpy frame sets; no '
                'contract within reach of this verifier expresses "all polyline points of the output document", so it is '
-               'not decided by this check.')
+               'not decided by contracts: a bounded stand-in (standins/c19_plot.py) plots generated log passes and locates every '
+               'polyline point, and drives the scale arithmetic with adversarial binary64 values against an exact oracle.')
 ASSUMPTIONS = [
     'floats are reals: in binary64 (p - floor(p)) can round to 1.0, giving pos == rightP; the real model cannot see that',
     'math.log10 is an uninterpreted function with log10(a/b) = log10(a) - log10(b) for positive a, b (the one instance used '
     'is assumed explicitly)',
-    'second sentence of C19 (whole SVG plots) is NOT decided by this check',
+    'second sentence of C19 (whole SVG plots) is NOT decided by contracts: bounded stand-in only',
 ]
 
 FIELDS = dict(_lP=Real, _rP=Real, _lL=Real, _rL=Real, _bu=KTup(Int, Int), _den=Real, _pWidth=Real, _scale=Real, _offset=Real)
@@ -73,3 +74,20 @@ def register(reg):
     reg.add(Contract(F, 'LineTransBase.isOffScaleRight', {'self': OFF, 'w': Int}, returns=Bool,
                      ensures=['result == (not (w < 0 and self._bu[0] != 0 and w < self._bu[0]) and w > 0 and self._bu[1] != 0 and w > self._bu[1])'],
                      canaries=['result'], crosscheck=False))
+
+
+def standins(tier, seed):
+    """Second sentence of C19 (whole plots) and the binary64 behaviour of the scale arithmetic: NOT decided by contracts (the
+    proof above is over the reals and stops at wrapPos); bounded stand-in written by a sub-agent: real LineTransLin /
+    LineTransLog10 objects driven with adversarial doubles against exact rational / 80-digit arithmetic, and generated LIS /
+    LAS log passes plotted with built-in and generated formats, the SVG parsed and every curve point located."""
+    import os
+    from pyvc import standin
+    if not os.path.exists(os.path.join(standin.VERIF, 'standins', 'c19_plot.py')):
+        return []
+    n = 40 if tier == 'quick' else 1500
+    return [standin.run_script('scale-arithmetic-in-binary64-and-svg-plots', 'c19_plot.py', seed, n,
+                               'bounded: adversarial doubles on every back-up mode and scale direction (exact oracle); generated LIS / LAS log '
+                               'passes (constant, ramp, spiky, huge, tiny, negative, absent runs) plotted with FILM/PRES tables, built-in and '
+                               'generated formats; every polyline point checked against view box, margins, track and expected sample position',
+                               '%d cases (40%% scale arithmetic, 60%% plots)' % n)]
